@@ -31,11 +31,11 @@ def gen_history(rng):
             slot = rng.choice(free + [9]) if free else 9
             if slot != 9:
                 slot_of[e] = slot
-            ops.append("new %s %d" % (e, slot))
+            ops.append("new %s %d %d" % (e, slot, rng.choice([0, 0, 1, 2, 3])))
             live.append(e)
         elif k == 1 and live:
             e = rng.choice(live)
-            ops.append("del %s" % e)
+            ops.append("del %s %d" % (e, rng.choice([0, 0, 0, 1, 2])))
             live.remove(e)
             slot_of.pop(e, None)
         else:
